@@ -1,0 +1,19 @@
+//go:build verif
+
+package region
+
+// Read-only accessors for the verification harness (build tag verif only).
+
+// VerifOffsets returns a copy of the in-memory header table, indexed [z][x].
+func (r *Region) VerifOffsets() [32][32]int32 { return r.offsets }
+
+// VerifSectors returns the sector numbers currently marked as used, unsorted.
+func (r *Region) VerifSectors() []int32 {
+	out := make([]int32, 0, len(r.sectors))
+	for k, v := range r.sectors {
+		if v {
+			out = append(out, k)
+		}
+	}
+	return out
+}
